@@ -9,6 +9,6 @@ CONSTANTS
   AllowForget = TRUE
   AllowTick = TRUE
 SPECIFICATION Spec
-INVARIANTS TypeOK AbsInv ProducerOrder OnlyAppended NoLossAtEnd BoundedBatch NoParkWithWaiters JoinedMeansClosed
+INVARIANTS TypeOK AbsInv ProducerOrder OnlyAppended NoLossAtEnd BoundedBatch EbwExact NoParkWithWaiters JoinedMeansClosed
 PROPERTY Refines
 CHECK_DEADLOCK FALSE
